@@ -3216,6 +3216,72 @@ pub mod verif_hooks {
         encode_base_128(value)
     }
 
+    /// `EncodeContextMap` (private) on a caller-supplied zeroed storage, `storage_ix` starting at 0:
+    /// returns the number of bits written.
+    pub fn encode_context_map<AllocU32: alloc::Allocator<u32>>(
+        m: &mut AllocU32,
+        context_map: &[u32],
+        num_clusters: usize,
+        storage: &mut [u8],
+    ) -> usize {
+        let mut tree = [HuffmanTree {
+            total_count_: 0,
+            index_left_: 0,
+            index_right_or_value_: 0,
+        }; 2 * 704 + 1];
+        let mut storage_ix = 0usize;
+        EncodeContextMap(
+            m,
+            context_map,
+            context_map.len(),
+            num_clusters,
+            &mut tree[..],
+            &mut storage_ix,
+            storage,
+        );
+        storage_ix
+    }
+
+    /// `BuildAndStoreBlockSplitCode` (private) followed by `StoreBlockSwitch` (private) for the
+    /// blocks 1.. of a split, on a caller-supplied zeroed storage: returns the number of bits written.
+    pub fn store_block_switches(
+        types: &[u8],
+        lengths: &[u32],
+        num_types: usize,
+        storage: &mut [u8],
+    ) -> usize {
+        let mut tree = [HuffmanTree {
+            total_count_: 0,
+            index_left_: 0,
+            index_right_or_value_: 0,
+        }; 2 * 704 + 1];
+        let mut code = BlockSplitCode {
+            type_code_calculator: BlockTypeCodeCalculator::new(),
+            type_depths: [0; 258],
+            type_bits: [0; 258],
+            length_depths: [0; 26],
+            length_bits: [0; 26],
+        };
+        let mut storage_ix = 0usize;
+        let num_blocks = types.len().min(lengths.len());
+        BuildAndStoreBlockSplitCode(
+            types,
+            lengths,
+            num_blocks,
+            num_types,
+            &mut tree[..],
+            &mut code,
+            &mut storage_ix,
+            storage,
+        );
+        if num_types > 1 {
+            for i in 1..num_blocks {
+                StoreBlockSwitch(&mut code, lengths[i], types[i], false, &mut storage_ix, storage);
+            }
+        }
+        storage_ix
+    }
+
     /// `BuildAndStoreHuffmanTree` (private) on caller-supplied buffers, `storage_ix` starting
     /// at 0: returns the number of bits written.  `tree` must hold `2 * 704 + 1` nodes as in
     /// the callers of the private function.
